@@ -23,6 +23,8 @@ type c05Case struct {
 	Src     vstat.Q   `json:"src"`
 	History []vstat.Q `json:"history"`
 	Probe   vstat.Q   `json:"probe"`
+	// CurrentYear: the VMs run with the syslog-use-current-year option
+	CurrentYear bool `json:"current_year,omitempty"`
 }
 
 type c05Row struct {
@@ -132,8 +134,8 @@ func runC05x(c c05Case) (*vstat.Failure, c05Res) {
 		return vstat.Failf("nondeterministic-verdict", "second compile rejects: %v", err), res
 	}
 	res.accepted = true
-	va := hx.NewVM("c05a.mtail", objA, false, nil)
-	vb := hx.NewVM("c05b.mtail", objB, false, nil)
+	va := hx.NewVM("c05a.mtail", objA, c.CurrentYear, nil)
+	vb := hx.NewVM("c05b.mtail", objB, c.CurrentYear, nil)
 	for _, h := range c.History {
 		va.ProcessLogLine(nil, hx.Line("/var/log/x.log", string(h)))
 	}
@@ -220,6 +222,10 @@ func TestC05(t *testing.T) {
 				rt.Skip("strptime excluded while C05-1 is open")
 			}
 			c.Src = vstat.Q(src)
+			if strings.Contains(src, "strptime(") && rapid.Bool().Draw(rt, "currentyear") {
+				c.CurrentYear = true
+				st.Class("syslog-use-current-year")
+			}
 			nh := rapid.IntRange(0, 10).Draw(rt, "nhist")
 			var hist []string
 			line := func() string {
@@ -288,7 +294,18 @@ func TestC05(t *testing.T) {
 
 // c05Template draws one of a few program shapes built around per-line state.
 func c05Template(rt *rapid.T) (string, []string) {
-	switch rapid.IntRange(0, 3).Draw(rt, "tmpl") {
+	switch rapid.IntRange(0, 5).Draw(rt, "tmpl") {
+	case 4:
+		// a year-less layout (the current-year option rewrites the parsed instant)
+		lay := rapid.SampledFrom([]string{"Jan _2 15:04:05", "Jan  2 15:04:05", "02/Jan 15:04"}).Draw(rt, "yl")
+		return "gauge g\ncounter n\n/^(?P<ts>\\w+ +\\d+ [\\d:]+) (?P<w>\\w+)$/ {\n  strptime($ts, \"" + lay + "\")\n  g = timestamp()\n  n++\n}\n/^(?P<ts2>\\d+\\/\\w+ [\\d:]+) (?P<w2>\\w+)$/ {\n  strptime($ts2, \"" + lay + "\")\n  g = timestamp()\n  n++\n}\n",
+			[]string{"Jul 24 10:14:11 a", "Jul 24 10:14:11 b", "Jul  4 10:14:11 a", "Dec 31 23:59:59 x", "24/Jul 10:14 a", "24/Jul 10:14 b", "Jul 24 10:14:11 a"}
+	case 5:
+		// the same text converted under different bases / by different conversions
+		b1 := rapid.SampledFrom([]string{"16", "10", "8", "2"}).Draw(rt, "b1")
+		b2 := rapid.SampledFrom([]string{"16", "10", "8", "2"}).Draw(rt, "b2")
+		return "gauge x\ngauge y\ngauge z\ncounter n\n/^a (\\S+)$/ {\n  x = strtol($1, " + b1 + ")\n  n++\n}\n/^b (\\S+)$/ {\n  y = strtol($1, " + b2 + ")\n  n++\n}\n/^c (\\S+)$/ {\n  z = int($1)\n  n++\n}\n",
+			[]string{"a 100", "b 100", "c 100", "a ff", "b ff", "c ff", "a 17", "b 17", "c 17", "a 101", "b 101", "c 8", "a 8", "b 8"}
 	case 0:
 		op := rapid.SampledFrom([]string{"||", "&&"}).Draw(rt, "sc")
 		cmp := rapid.SampledFrom([]string{"==", "!="}).Draw(rt, "cmp")
